@@ -71,6 +71,9 @@ func ArgRole(p *core.Prog, r *core.Report) {
 			if !p.InSubject(g) && !inErrors {
 				return
 			}
+			if isValueEqualityPredicate(p, g) || isEqualityHelper(p, g) {
+				return // an equality is symmetric: its two operands may be handed over in either order
+			}
 			sig := g.Signature
 			args := c.Common().Args
 			off := 0
@@ -235,4 +238,30 @@ func roleOf(n string) string {
 // path` for a name and a place — so that roles are not used here).
 func canonRole(n string) string {
 	return strings.ToLower(n)
+}
+
+// isEqualityHelper: a helper that a value-equality predicate of the package hands its two operands to (first two
+// parameters of one type, result bool).
+func isEqualityHelper(p *core.Prog, g *ssa.Function) bool {
+	if !p.InSubject(g) || len(g.Params) < 2 || g.Signature.Results().Len() != 1 || !types.Identical(g.Params[0].Type(), g.Params[1].Type()) {
+		return false
+	}
+	if b, ok := g.Signature.Results().At(0).Type().Underlying().(*types.Basic); !ok || b.Kind() != types.Bool {
+		return false
+	}
+	for _, f := range p.Funcs {
+		if f.Parent() != nil || !isValueEqualityPredicate(p, f) {
+			continue
+		}
+		found := false
+		core.EachInstr(f, func(i ssa.Instruction) {
+			if c, ok := i.(*ssa.Call); ok && core.StaticCallee(c) == g {
+				found = true
+			}
+		})
+		if found {
+			return true
+		}
+	}
+	return false
 }
